@@ -1425,8 +1425,27 @@ func (g *Gen) anchored(st *State, line, kind string) {
 				continue
 			}
 			ctx := &specCtx{g: g, st: st, old: g.entry}
-			g.oblige(st, "assert", c.ID, "assertion "+c.Src, g.evalGoal(ctx, c.E))
+			goal, ok := "", true
+			func() {
+				// an anchored assertion that names a local the code no longer has is contract drift
+				// (reported, undecided), not a reason to give up the whole function
+				defer func() {
+					if r := recover(); r != nil {
+						if u, isU := r.(unsupportedErr); isU && strings.Contains(u.msg, "unknown identifier") {
+							ok = false
+							g.anchorNotes = append(g.anchorNotes, "assert at `"+anchor+"` names a variable the code no longer has: "+u.msg)
+							return
+						}
+						panic(r)
+					}
+				}()
+				goal = g.evalGoal(ctx, c.E)
+			}()
 			g.assertUse[c]++
+			if !ok {
+				continue
+			}
+			g.oblige(st, "assert", c.ID, "assertion "+c.Src, goal)
 		}
 	}
 }
